@@ -553,7 +553,8 @@ theorem verifyOne_decision (fs : FS) (target : Bytes) (strict : Bool) (vs : List
 
 /-- the Go node of one grown visit, as far as `validatePath` reads it -/
 def visitNode (v : Visit) : Src.Node :=
-  { name := v.name, hierarchy := (v.level : Int), index := 0, brnch := ⟨v.branch, v.path⟩, children := [] }
+  { name := v.name, hierarchy := (v.level : Int), index := 0, brnch := ⟨v.branch, v.path⟩,
+    children := if v.hasChild then [{ name := [], hierarchy := 0, index := 0, brnch := ⟨[], []⟩, children := [] }] else [] }
 
 /-- the model's validation errors as the `fmt.Errorf` values of node.go -/
 def verrSrc : VErr → Src.Err
@@ -602,5 +603,49 @@ theorem validatePath_src (v : Visit) (hroot : v.level = 1 → v.path = v.name) :
       simp only [this, Bool.not_false, if_true, Option.map_some, verrSrc]
   · have : singleElem v.name = false := by simpa using h1
     simp only [this, Bool.not_false, if_true, Option.map_some, verrSrc]
+
+
+/-! ### The accessors of `WalkerNode` (simple_tree_walker.go) -/
+
+theorem visitNode_isRoot (v : Visit) : Src.Node.isRoot (visitNode v) = (v.level == 1) := by
+  unfold Src.Node.isRoot visitNode
+  simp only [Src.rootHierarchyNum]
+  by_cases h1 : v.level = 1
+  · rw [h1]; rfl
+  · have a : (v.level == 1) = false := by simpa using h1
+    have b : (((v.level : Nat) : Int) == 1) = false := by
+      simp only [beq_eq_false_iff_ne, ne_eq]; omega
+    rw [a, b]
+
+/-- **What a walk callback reads from a `WalkerNode` is the model's visit**: `Name`, `Branch`, `Level`, `HasChild`,
+    `Path` (a root's path is its name) and `Row` = `Branch + " " + Name`, the name alone for a root. -/
+theorem walkerNode_src (v : Visit) (hroot : v.level = 1 → v.path = v.name) :
+    Src.WalkerNode.Name ⟨visitNode v⟩ = v.name ∧
+    Src.WalkerNode.Branch ⟨visitNode v⟩ = v.branch ∧
+    Src.WalkerNode.Level ⟨visitNode v⟩ = (v.level : Int) ∧
+    Src.WalkerNode.HasChild ⟨visitNode v⟩ = v.hasChild ∧
+    Src.WalkerNode.Path ⟨visitNode v⟩ = v.path ∧
+    Src.WalkerNode.Row ⟨visitNode v⟩ = v.row := by
+  refine ⟨rfl, rfl, rfl, ?_, ?_, ?_⟩
+  · simp only [Src.WalkerNode.HasChild, Src.Node.hasChild, visitNode, len]
+    by_cases hh : v.hasChild = true
+    · simp [hh]
+    · have : v.hasChild = false := by simpa using hh
+      simp [this]
+  · simp only [Src.WalkerNode.Path, Src.Node.path, visitNode_isRoot]
+    by_cases h1 : v.level = 1
+    · have : (v.level == 1) = true := by simpa using h1
+      simp only [this, if_true]
+      exact (hroot h1).symm
+    · have : (v.level == 1) = false := by simpa using h1
+      simp [this, visitNode]
+  · simp only [Src.WalkerNode.Row, visitNode_isRoot, Visit.row]
+    by_cases h1 : v.level = 1
+    · have : (v.level == 1) = true := by simpa using h1
+      simp [this, visitNode]
+    · have : (v.level == 1) = false := by simpa using h1
+      simp only [this, Bool.not_false, if_true, Bool.false_eq_true, if_false]
+      show (v.branch ++ [0x20]) ++ v.name = v.branch ++ sp :: v.name
+      simp [sp]
 
 end Gtree
